@@ -1,3 +1,5 @@
+use proc_macro2::TokenStream;
+use quote::quote;
 use std::collections::HashSet;
 use syn::{
     ext::IdentExt,
@@ -98,5 +100,21 @@ impl GenericParamSet {
         };
         visitor.visit_type(ty);
         visitor.result
+    }
+}
+
+/// Tokens of `ty` for the position directly behind `&`, `&mut` or `&'a`.
+///
+/// A bare trait-object or impl-trait type with several bounds is parenthesised, because `&dyn A + B` is not a type.
+pub fn ref_elem(ty: &Type) -> TokenStream {
+    let bounds = match ty {
+        Type::TraitObject(t) => t.bounds.len(),
+        Type::ImplTrait(t) => t.bounds.len(),
+        _ => 0,
+    };
+    if bounds > 1 {
+        quote!((#ty))
+    } else {
+        quote!(#ty)
     }
 }
